@@ -138,6 +138,7 @@ def _make_empty_cog(
         FILETYPE,
         PHOTOMETRIC,
         PLANARCONFIG,
+        TiffFile,
         TiffWriter,
         enumarg,
     )
@@ -170,12 +171,20 @@ def _make_empty_cog(
 
     buf = BytesIO()
 
+    # tifffile stores an uncompressed image that is exactly one tile
+    # "contiguously" and then consumes the tile iterator to exhaustion, which
+    # never happens with the endless stream of empty tiles used below: lay the
+    # structure out with a placeholder codec and restore the tag afterwards
+    _layout_compression = _compression
+    if _compression == COMPRESSION.NONE:
+        _layout_compression = COMPRESSION.ADOBE_DEFLATE
+
     opts_common = {
         "dtype": dtype,
         "photometric": photometric,
         "planarconfig": planarconfig,
         "predictor": predictor,
-        "compression": _compression,
+        "compression": _layout_compression,
         "compressionargs": compressionargs,
         "software": False,
         **kw,
@@ -240,6 +249,12 @@ def _make_empty_cog(
     meta.overviews = tuple(metas[1:])
 
     tw.close()
+
+    if _layout_compression != _compression:
+        buf.seek(0)
+        with TiffFile(buf, mode="r+", name=":mem:") as tr:
+            for page in tr.pages:
+                page.tags[259].overwrite(int(_compression))
 
     return meta, buf.getbuffer()
 
